@@ -23,10 +23,23 @@ pub(super) fn index_for_rcurrent(
     // according to the filesystem
     let mut index_for_rcurrent = match o_index_for_rcurrent {
         Some(idx) => idx,
-        None => match get_highest_index(&config.file_spec) {
-            Some(idx) => next_index(idx)?,
-            None => 0,
-        },
+        None => {
+            let mut idx = match get_highest_index(&config.file_spec) {
+                Some(idx) => next_index(idx)?,
+                None => 0,
+            };
+            // (a directory that cannot be read yields no file at all:
+            // never take a number whose file exists, plain or compressed)
+            loop {
+                let path = config.file_spec.as_pathbuf(Some(&number_infix(idx)));
+                let mut path_with_gz = path.clone().into_os_string();
+                path_with_gz.push(".gz");
+                if !path.exists() && !std::path::PathBuf::from(path_with_gz).exists() {
+                    break idx;
+                }
+                idx = next_index(idx)?;
+            }
+        }
     };
 
     if rotate_rcurrent {
